@@ -137,8 +137,75 @@ fn c20_pattern(rep: &mut Report, pattern: &[Val], rng: &mut Rng) -> bool {
     true
 }
 
+/// interpretations with very many undecided positions: the full product cannot be enumerated, but the
+/// first N yielded elements must be pairwise distinct valid completions and the iterator must not end early
+fn c20_prefix(rep: &mut Report, len: usize, k: usize, take: usize, rng: &mut Rng) -> bool {
+    let mut pattern: Vec<Val> = (0..len).map(|_| if rng.bool() { VT } else { VF }).collect();
+    for pos in rng.perm(len).into_iter().take(k) {
+        pattern[pos] = VU;
+    }
+    let input = terms_of(&pattern, rng);
+    rep.evaluations += 1;
+    let replay = json!({"property": "c20", "prefix_check": true, "length": len, "undecided": k, "pattern": show_vals(&pattern)});
+    for three in [false, true] {
+        let name = if three { "three-valued" } else { "two-valued" };
+        let input2 = input.clone();
+        let r = guarded(SMALL_BUDGET, move || -> Vec<Vec<Term>> {
+            if three {
+                ThreeValuedInterpretationsIterator::new(&input2).take(take).collect()
+            } else {
+                TwoValuedInterpretationsIterator::new(&input2).take(take).collect()
+            }
+        });
+        let out = match r {
+            Ok(o) => o,
+            Err(c) => {
+                rep.violation(&format!("iterator-prefix:{}", c.kind()), format!("{} iterator, {} undecided positions: {}", name, k, c.describe()), replay);
+                return false;
+            }
+        };
+        rep.count("prefix_elements_checked", out.len() as u64);
+        // 2^k resp. 3^k elements exist; with k >= 13 that is more than `take`
+        let expected = if k >= 13 { take } else { (if three { 3usize } else { 2 }).pow(k as u32).min(take) };
+        if out.len() != expected {
+            rep.violation(
+                "iterator-ends-early",
+                format!("{} iterator with {} undecided positions stopped after {} elements (asked for {})", name, k, out.len(), expected),
+                replay,
+            );
+            return false;
+        }
+        let mut seen = std::collections::HashSet::new();
+        for t in &out {
+            let v = vals_of(t);
+            let ok = v.len() == pattern.len()
+                && v.iter().zip(pattern.iter()).all(|(g, p)| if *p == VU { three || *g != VU } else { g == p });
+            if !ok {
+                rep.violation("iterator-prefix-invalid-element", format!("{} iterator yielded {} for {}", name, show_vals(&v), show_vals(&pattern)), replay);
+                return false;
+            }
+            if !seen.insert(v) {
+                rep.violation("iterator-prefix-duplicate", format!("{} iterator with {} undecided positions repeats an element within the first {}", name, k, take), replay);
+                return false;
+            }
+        }
+    }
+    rep.max("max_undecided_prefix_checked", k as u64);
+    rep.nontrivial.insert(hash_str(&format!("prefix{}", show_vals(&pattern))));
+    true
+}
+
 pub fn c20(cfg: &Cfg, rep: &mut Report) {
     let mut rng = Rng::new(cfg.case_seed(0));
+    if !cfg.flag("no_prefix") {
+        // around the machine word sizes and far beyond
+        for k in [13usize, 31, 32, 33, 62, 63, 64, 65, 70, 100, 127, 128, 129, 200] {
+            let len = k + rng.range(0, 20);
+            if !c20_prefix(rep, len, k, cfg.get_usize("prefix_take", 3000), &mut rng) {
+                return;
+            }
+        }
+    }
     if cfg.shard == 0 {
         // complete enumeration of all patterns up to length 7
         let maxlen = cfg.get_usize("exhaustive_len", 7);
